@@ -380,33 +380,37 @@ func c14Dropped(c *core.Ctx) {
 	}
 }
 
-// c14CollectDuringClose: Close is delivering closed events (its handler is slow); another goroutine calls Collect with
-// a time past every deadline. Either order explains "agent closed, nothing emitted" or "nil, all timed out" - never
-// "nil and nothing emitted", which is what a Collect that gives up on a busy agent reports.
-func c14CollectDuringClose(c *core.Ctx, n int) {
+// c14CallDuringClose: Close is delivering closed events (its handler is slow); another goroutine makes one more call.
+// The two calls overlap, so either order may explain the outcome - but one of them must: before Close the call has its
+// normal effect (and Close then covers what it left registered), after Close it returns ErrAgentClosed and emits nothing.
+func c14CallDuringClose(c *core.Ctx, n int, op int) {
 	entered, release := make(chan struct{}), make(chan struct{})
 	var once sync.Once
 	var mu sync.Mutex
-	collectG := int64(-1)
-	timeoutsFromCollect, closedEvents := 0, 0
-	a := stun.NewAgent(func(e stun.Event) {
+	otherG := int64(-1)
+	fromOther := map[string]int{}
+	closedEvents := 0
+	var a *stun.Agent
+	handler := func(e stun.Event) {
 		mu.Lock()
-		switch amEventClass(e) {
-		case evClosed:
+		cl := amEventClass(e)
+		if cl == evClosed {
 			closedEvents++
-		case evTimeout:
-			if goid() == collectG {
-				timeoutsFromCollect++
-			}
+		}
+		if goid() == otherG {
+			fromOther[cl]++
 		}
 		mu.Unlock()
-		if amEventClass(e) == evClosed {
+		if cl == evClosed {
 			once.Do(func() { close(entered); <-release })
 		}
-	})
+	}
+	a = stun.NewAgent(handler)
 	for i := 0; i < n; i++ {
 		_ = a.Start([stun.TransactionIDSize]byte{byte(i), byte(i >> 8), 0x5C}, amTime(0))
 	}
+	fresh := [stun.TransactionIDSize]byte{0xFE, 0xFE, 0x5D}
+	registered := [stun.TransactionIDSize]byte{byte(n - 1), byte((n - 1) >> 8), 0x5C}
 	closeDone := make(chan error, 1)
 	go func() { closeDone <- a.Close() }()
 	select {
@@ -417,39 +421,83 @@ func c14CollectDuringClose(c *core.Ctx, n int) {
 
 		return
 	}
-	collectDone := make(chan error, 1)
+	name := []string{"Collect(past every deadline)", "Start(new id)", "Process(new id)", "SetHandler", "Stop(registered id)"}[op]
+	otherDone := make(chan error, 1)
 	go func() {
 		mu.Lock()
-		collectG = goid()
+		otherG = goid()
 		mu.Unlock()
-		collectDone <- a.Collect(amTime(3))
+		switch op {
+		case 0:
+			otherDone <- a.Collect(amTime(3))
+		case 1:
+			otherDone <- a.Start(fresh, amTime(3))
+		case 2:
+			otherDone <- a.Process(&stun.Message{TransactionID: fresh})
+		case 3:
+			otherDone <- a.SetHandler(handler)
+		default:
+			otherDone <- a.Stop(registered)
+		}
 	}()
-	var cerr error
-	returnedEarly := false
+	var oerr error
+	early := false
 	select {
-	case cerr = <-collectDone:
-		returnedEarly = true
+	case oerr = <-otherDone:
+		early = true
 	case <-time.After(100 * time.Millisecond):
 	}
 	close(release)
-	if !returnedEarly {
-		cerr = <-collectDone
+	if !early {
+		select {
+		case oerr = <-otherDone:
+		case <-time.After(15 * time.Second):
+			c.Violate("stuck", "stuck:call-during-close:"+name, map[string]interface{}{"problem": name + " issued while Close was delivering did not return after Close's handler was let go", "parked_in": agentFrames(allStacks())})
+
+			return
+		}
 	}
-	<-closeDone
+	select {
+	case <-closeDone:
+	case <-time.After(15 * time.Second):
+		c.Violate("stuck", "stuck:Close:call-during-close:"+name, map[string]interface{}{"problem": "Close did not return", "parked_in": agentFrames(allStacks())})
+
+		return
+	}
 	c.Eval(1)
 	c.Count("calls", 2)
 	mu.Lock()
 	defer mu.Unlock()
-	if amErrClass(cerr) == "nil" && timeoutsFromCollect == 0 {
-		c.Violate("not-linearizable", "not-linearizable:collect-during-close", map[string]interface{}{
-			"registered_and_overdue": n, "collect_returned": "nil", "timeouts_emitted_by_collect": 0, "closed_events": closedEvents,
-			"problem": "Collect returned nil without emitting anything while overdue transactions were registered (Close was delivering at the time); no order of the two calls explains that"})
+	res := amErrClass(oerr)
+	emitted := 0
+	for _, k := range fromOther {
+		emitted += k
+	}
+	ok := false
+	switch {
+	case res == "agent-closed" && emitted == 0 && closedEvents == n:
+		ok = true // after Close
+	case res == "nil" && op == 0:
+		ok = fromOther[evTimeout] > 0 && fromOther[evTimeout]+closedEvents == n // before Close: the timeouts are Collect's, the rest Close's
+	case res == "nil" && op == 1:
+		ok = emitted == 0 && closedEvents == n+1 // before Close: the new transaction is closed by Close
+	case res == "nil" && op == 2:
+		ok = fromOther[evMessage] == 1 && emitted == 1 && closedEvents == n
+	case res == "nil" && op == 3:
+		ok = emitted == 0 && closedEvents == n
+	case res == "nil" && op == 4:
+		ok = fromOther[evStopped] == 1 && emitted == 1 && closedEvents == n-1
+	}
+	if !ok {
+		c.Violate("not-linearizable", "not-linearizable:call-during-close:"+name, map[string]interface{}{
+			"registered": n, "call": name, "returned": res, "events_emitted_by_that_call": fmt.Sprint(fromOther), "closed_events": closedEvents,
+			"problem": "no order of Close and " + name + " explains this outcome"})
 	}
 }
 
 func c14(c *core.Ctx) {
-	c.Section("collect-during-close", 6, func(i int64, _ *gen.Rand) {
-		c14CollectDuringClose(c, []int{1, 2, 3, 50, 150, 400}[i])
+	c.Section("call-during-close", 30, func(i int64, _ *gen.Rand) {
+		c14CallDuringClose(c, []int{1, 2, 3, 50, 150, 400}[i%6], int(i/6))
 		c.Distinct(uint64(i) | 5<<50)
 	})
 	c.SectionSerial("dropped-agents", 2, func(i int64, _ *gen.Rand) {
